@@ -235,7 +235,12 @@ def run(out, tier, model_ok=True):
       b = construct_real(dict(kb))[1]
       mutated = rng.choice([('n_test', 28), ('n_designs', 4), ('iroas', 2.5), ('budget_range', (1.0, 9.0)), ('sig_level', 0.85)])
       setattr(b, mutated[0], mutated[1])
-    fieldwise = all(getattr(a, f) == getattr(b, f) for f in FIELDS)
+    try:
+      fieldwise = all(getattr(a, f) == getattr(b, f) for f in FIELDS)
+    except OverflowError:
+      # a numpy float against an integer of 400 digits: numpy cannot even compare them; not a pair the property is about
+      out.count(None)
+      continue
     try:
       got = (a == b)
     except Exception as e:
